@@ -41,13 +41,13 @@ theorem erasePod_of_findPod_none {uid : Nat} : ∀ {ps : List PodAlloc}, findPod
 
 namespace DevPB
 
-theorem preBind_allocated (gate : Bool) (v : Vendor) (c : Obj) (al : List GAlloc) :
-    (preBind gate v c al).1.allocated = some al := by
+theorem preBind_allocated {π : Type} (gate : Bool) (adapt : List GAlloc → Option π) (c : Obj π) (al : List GAlloc) :
+    (preBind gate adapt c al).1.allocated = some al := by
   unfold preBind
   cases gate
   · rfl
   · simp only [Bool.not_true]
-    cases adapt v al <;> rfl
+    cases adapt al <;> rfl
 
 end DevPB
 
